@@ -6,6 +6,7 @@ import (
 	stdjson "encoding/json"
 	"fmt"
 	"io"
+	"reflect"
 	"regexp"
 	"strings"
 
@@ -375,6 +376,104 @@ func byteSweep(c *explore.Ctx) {
 	}
 }
 
+// ---- histories of Encoder setter calls: the last call of each setter decides, whatever came before
+
+type setterProbe struct {
+	R json.RawMessage
+	M map[string]int
+	S string
+}
+
+func encoderSetters(c *explore.Ctx) {
+	n := c.Choose(4)                                       // 0..3 setter calls
+	esc, sorted, trust, newline := true, true, false, true // what NewEncoder starts with
+	var hist []string
+	var buf bytes.Buffer
+	enc := json.NewEncoder(&buf)
+	for i := 0; i < n; i++ {
+		op := c.Choose(8)
+		on := op%2 == 0
+		switch op / 2 {
+		case 0:
+			enc.SetEscapeHTML(on)
+			esc = on
+			hist = append(hist, fmt.Sprintf("SetEscapeHTML(%v)", on))
+		case 1:
+			enc.SetSortMapKeys(on)
+			sorted = on
+			hist = append(hist, fmt.Sprintf("SetSortMapKeys(%v)", on))
+		case 2:
+			enc.SetTrustRawMessage(on)
+			trust = on
+			hist = append(hist, fmt.Sprintf("SetTrustRawMessage(%v)", on))
+		case 3:
+			enc.SetAppendNewline(on)
+			newline = on
+			hist = append(hist, fmt.Sprintf("SetAppendNewline(%v)", on))
+		}
+	}
+	var flags json.AppendFlags
+	if esc {
+		flags |= json.EscapeHTML
+	}
+	if sorted {
+		flags |= json.SortMapKeys
+	}
+	if trust {
+		flags |= json.TrustRawMessage
+	}
+	desc := "NewEncoder; " + strings.Join(hist, "; ")
+	probes := []struct {
+		name string
+		v    any
+	}{
+		{"valid raw message", setterProbe{R: json.RawMessage(` [1 , "<x>"] `), M: map[string]int{"b": 1, "a": 2, "<c>": 3}, S: "<&>"}},
+		{"malformed raw message", setterProbe{R: json.RawMessage(`{"a":1,}`), M: map[string]int{"k": 1}, S: "s"}},
+		{"raw message with trailing garbage", []any{json.RawMessage(`1 2`)}},
+		{"empty raw message", map[string]json.RawMessage{"e": json.RawMessage(``)}},
+	}
+	for _, pr := range probes {
+		buf.Reset()
+		var err error
+		if pv, ps := explore.Catch(func() { err = enc.Encode(pr.v) }); pv != nil {
+			c.Fail("setters:panic:"+ps, "Encode(%s) panics after %s: %v", pr.name, desc, pv)
+			continue
+		}
+		want, werr := json.Append(nil, pr.v, flags)
+		if (err == nil) != (werr == nil) {
+			if err == nil {
+				c.Fail("setters:accepts:"+pr.name, "after %s, Encode(%s) writes %q; Append with the flags these calls select fails: %v", desc, pr.name, buf.String(), werr)
+			} else {
+				c.Fail("setters:rejects:"+pr.name, "after %s, Encode(%s) fails: %v; Append with the flags these calls select succeeds", desc, pr.name, err)
+			}
+			continue
+		}
+		if err != nil {
+			continue
+		}
+		if newline {
+			want = append(want, '\n')
+		}
+		got := buf.Bytes()
+		if sorted || pr.name != "valid raw message" {
+			if !bytes.Equal(got, want) {
+				c.Fail("setters:bytes-differ:"+pr.name, "after %s, Encode(%s) writes %q; the flags these calls select give %q", desc, pr.name, got, want)
+			}
+		} else {
+			var g, w any
+			e1, e2 := stdjson.Unmarshal(got, &g), stdjson.Unmarshal(want, &w)
+			if e1 != nil || e2 != nil || !reflect.DeepEqual(g, w) || len(got) != len(want) {
+				c.Fail("setters:content-differs:"+pr.name, "after %s, Encode(%s) writes %q; the flags these calls select give %q", desc, pr.name, got, want)
+			}
+		}
+	}
+	c.NontrivialStr("setters", desc)
+	c.Outcome(fmt.Sprintf("calls=%d trust=%v", n, trust))
+	if c.WantSample() || c.Failed() {
+		c.Case(map[string]any{"history": desc, "flags": int(flags)})
+	}
+}
+
 func stringSweep(c *explore.Ctx) {
 	maxBody := 40
 	if c.Thorough() {
@@ -629,6 +728,7 @@ func Spec() *explore.Spec {
 			{Name: "byte-strings", ShardDepth: 3, Body: byteStrings, Doc: "all byte strings up to length 6 (quick) / 7 (thorough) over a 27-byte class alphabet; every syntax-only consumer on all strings up to length 4 / 5"},
 			{Name: "token-strings", ShardDepth: 3, Body: tokenStrings, Doc: "all token sequences up to 6 / 8 over 16 tokens; consumers up to 4 / 5"},
 			{Name: "byte-sweep", ShardDepth: 2, Body: byteSweep, Doc: "21 small documents and streams with white space in every kind of gap: every byte value 0..255 substituted at, and inserted before, every position (and appended); Valid and every syntax-only consumer compared with encoding/json on each"},
+			{Name: "encoder-setters", ShardDepth: 2, Body: encoderSetters, Doc: "every history of 0-3 calls of the Encoder setters (EscapeHTML, SortMapKeys, TrustRawMessage, AppendNewline x on/off) followed by 4 probes (valid, malformed, trailing-garbage and empty RawMessage values): error presence and bytes equal Append with the flags the last call of each setter selects - an invalid RawMessage is rejected unless trust is on"},
 			{Name: "string-sweep", ShardDepth: 2, Body: stringSweep, Doc: "string body length 0..40/72 x every position x all 256 byte values x 5 input-wide contexts; escapes at every position"},
 			{Name: "unicode-escapes", ShardDepth: 2, Body: unicodeEscapes, Doc: "\\uXXXX with every pair of hex-digit classes at every digit position, at every offset 0..18"},
 			{Name: "numbers", ShardDepth: 3, Body: numbers, Doc: "all strings up to length 6 over {- + 0 1 9 . e E} in 4 contexts"},
